@@ -573,7 +573,7 @@ def roundtrip(obs, make_regions, opts, what, tmpdir=None, stage='rt', pre_repair
 # generators, side (a)
 LABELS_PLAIN = ['src 1', 'A', 'My label here', 'region18', 'NGC_1234-b', 'x;y#z', 'a.b:c/d', '(core) +2', 'α Cen', '-x', '42']
 LABELS_HOSTILE = ['NGC 1234, north', 'bracket [1]', 'say "hi" there', 'a,b']
-TEXTS = ['hello', 'a b', 'NGC 1234', 'x;y#z', 'α Cen', 'two, parts', 'T', '(1) core + jet', '3.5mJy']
+TEXTS = ['hello', 'a b', 'NGC 1234', 'x;y#z', 'α Cen', 'two, parts', 'T', '(1) core + jet', '3.5mJy', 'the "core"', '"quoted"', 'offset 30"']
 RANGES = [[(-1240.0, 'km/s'), (1240.0, 'km/s')], [(1.42, 'GHz'), (1.421, 'GHz')], [(1420.405, 'MHz'), (1421.0, 'MHz')],
           [(-320.0, 'm/s'), (-330.0, 'm/s')], [(5.0, 'chan'), (20.0, 'chan')], [(1.5, 'kHz'), (2.25, 'kHz')],
           [(100.0, 'Hz'), (200.0, 'Hz')]]
@@ -896,7 +896,7 @@ GLOBAL_VOCAB = {'frame': FRAMES_SPEC, 'veltype': VELTYPES, 'restfreq': ['1.42GHz
                 'fontsize': ['10', '12'], 'fontstyle': ['bold', 'normal', 'italic'], 'usetex': ['true', 'false'],
                 'labelpos': ['top', 'bottom', 'left', 'right']}
 READ_LABELS = ['My label here', 'region18', 'A', 'src 1', 'x;y#z', 'NGC_1234-b', '(core) +2', '42']
-READ_TEXTS = ['my text', 'hello', 'NGC 1234', 'two, parts', 'x;y#z', 'T', '3.5mJy core']
+READ_TEXTS = ['my text', 'hello', 'NGC 1234', 'two, parts', 'x;y#z', 'T', '3.5mJy core', 'the "core"', 'offset 30"']
 
 
 def g_meta_items(rng, allow_label, pmax):
